@@ -5,35 +5,35 @@ HERE = os.path.dirname(os.path.dirname(os.path.abspath(__file__)))
 
 CLAIMED = {
     "C01": dict(cat="exploration", ref="DESIGN.md 4 (C01)",
-        text="Seeded search over connections (intent, secret, claimed identity, authentication verdict incl. errors and latency, 8 Encryption Response variants, valid and subtly invalid cookies) through the real Connection; history oracle: grant packets require an honest token and a voucher, the service is asked with the connection's secret / key / claim, every later use of the identity (Login Success, filter, strategy, issued cookie) is the vouched one.",
+        text="Seeded search over connections (intent, secret, claimed identity, authentication verdict incl. errors and latency, 8 Encryption Response variants, valid and subtly invalid cookies) through the real Connection; history oracle: grant packets require an honest token and a voucher, the service is asked with the connection's secret / key / claim, every later use of the identity (Login Success, filter, strategy, issued cookie) is the vouched one. Later rounds added: zero-time transport faults (frames coalesced into one read, cuts down to one byte, spurious Pending, short write acceptance), the token of a real previous connection, degenerate verdicts (empty name, nil UUID), long names, 5-8 KB profiles, and the rule that every service call carries the connection's own client address.",
         note="Scripted authentication service stands in for the session server; independent client codec/RSA/CFB8 trusted (interoperates with the real server on every honest run).",
         tech="deterministic simulation; history invariants over the recorded event log"),
     "C02": dict(cat="fault_enumeration", ref="DESIGN.md 4 (C02)",
-        text="The cookie-variant axis (exact, every truncation length, every single-bit flip, other secrets, non-JSON / wrong-shape bodies under a valid tag, absent, empty, untagged) is enumerated by run index over fresh base cookies; intent, configured secret, presenting IP and age-vs-expiry boundaries are sampled. The acceptance predicate is recomputed independently (own HMAC, own JSON shape check, exact wall-clock second).",
+        text="The cookie-variant axis (exact, every truncation length, every single-bit flip, other secrets, non-JSON / wrong-shape bodies under a valid tag, absent, empty, untagged) is enumerated by run index over fresh base cookies; intent, configured secret, presenting IP and age-vs-expiry boundaries are sampled. The acceptance predicate is recomputed independently (own HMAC, own JSON shape check, exact wall-clock second). Later rounds added: a quarter of the runs present the exact valid cookie (acceptance side), the client answers the cookie request up to an hour late with wall-clock steps in between (age measured at the check), secrets of 64-200 bytes and other secrets sharing a long prefix, zero-time transport faults.",
         note="Trusts the oracle's HMAC/JSON check and the simulated wall clock being the only clock read (hook H2).",
         tech="deterministic simulation; enumerated cookie faults; independent acceptance predicate"),
     "C03": dict(cat="exploration", ref="DESIGN.md 4 (C03)",
-        text="Seeded routing scenarios (target lists with duplicates and IPv6, every filter/strategy outcome incl. errors, latencies up to 40 s, client locales against random tables through the real FixedLocalizationAdapter); oracle: pipeline wiring equalities from the call log, exactly one final Transfer naming the chosen address or one localized Disconnect, nothing after it.",
+        text="Seeded routing scenarios (target lists with duplicates and IPv6, every filter/strategy outcome incl. errors, latencies up to 40 s, client locales against random tables through the real FixedLocalizationAdapter); oracle: pipeline wiring equalities from the call log, exactly one final Transfer naming the chosen address or one localized Disconnect, nothing after it. Later rounds added: IPv4-mapped / IPv4-compatible / loopback / unspecified / port-boundary target addresses, non-ASCII messages, locales beyond 16 bytes, zero-time transport faults incl. padded frame length prefixes.",
         note="Locale tables lacking the applicable key are don't-care; text components compared as values.",
         tech="deterministic simulation; wiring equalities + independent locale fallback"),
     "C06": dict(cat="exploration", ref="DESIGN.md 4 (C06)",
-        text="Seeded scripted serverbound sequences (legal script with one deviation: close/reset, duplicate, skipped packet, unknown next-state, dishonest Encryption Response, any packet id of any phase) run against the real Connection; the observed clientbound kind sequence must equal the output of a reference automaton written from the property text; status body equals the service answer as a JSON value, Pong echoes the payload, no routing call before Login Acknowledged and Client Information.",
+        text="Seeded scripted serverbound sequences (legal script with one deviation: close/reset, duplicate, skipped packet, unknown next-state, dishonest Encryption Response, any packet id of any phase) run against the real Connection; the observed clientbound kind sequence must equal the output of a reference automaton written from the property text; status body equals the service answer as a JSON value, Pong echoes the payload, no routing call before Login Acknowledged and Client Information. Later rounds added: burst scripts (every frame in the pipe before the server reads the first), coalesced reads, cuts, padded length prefixes.",
         note="Unknown packets inside the configuration phase and unclassifiable bodies under the expected id are don't-care from that point (prefix compared).",
         tech="deterministic simulation; refinement against a reference protocol automaton"),
     "C07": dict(cat="exploration", ref="DESIGN.md 4 (C07)",
-        text="Seeded schedules under virtual time (service latencies 0-100 s incl. exactly 16/32 s, late Login Acknowledged / Client Information, per-keep-alive echo policy: prompt, delayed below/above the period, never, wrong id, duplicate, unsolicited) with tie-free offsets; ex-post timing oracle on the server's writes: a tick event at least every 16 s, timeout iff the previous Keep Alive was not echoed strictly before, otherwise the correct final packet at the instant the last service completes.",
+        text="Seeded schedules under virtual time (service latencies 0-100 s incl. exactly 16/32 s, late Login Acknowledged / Client Information, per-keep-alive echo policy: prompt, delayed below/above the period, never, wrong id, duplicate, unsolicited) with tie-free offsets; ex-post timing oracle on the server's writes: a tick event at least every 16 s, timeout iff the previous Keep Alive was not echoed strictly before, otherwise the correct final packet at the instant the last service completes. Later rounds added: client think time of 0-40 s in the login phase (nothing but login packets before Login Success), a client that pipelines Login Acknowledged behind its Encryption Response while authentication takes several periods, and the rule that a timeout at the very instant of the Keep Alive drops a prompt client.",
         note="Exact ties with a tick are excluded by construction; transport instantaneous here (C08 owns segmentation).",
         tech="deterministic simulation under paused clock; timing invariants and bounded liveness on virtual timestamps"),
     "C08": dict(cat="fault_enumeration", ref="DESIGN.md 4 (C08)",
-        text="Differential: each generated scenario is executed unsegmented (reference) and under a transport fault plan (variant): half of the runs enumerate a cut at (frame, byte offset) by run index with a gate from {spurious Pending, 1 ms, seconds, just after the next keep-alive tick, just after the next service completion}, the rest use multi-cut / one-byte-at-a-time plans and write-acceptance plans (1-byte and short prefixes, Pending for a duration, Pending until a service completes). Masked clientbound packets, service call log and result class must be identical; frames must arrive complete; bounded completion after the last event.",
+        text="Differential: each generated scenario is executed unsegmented (reference) and under a transport fault plan (variant): half of the runs enumerate a cut at (frame, byte offset) by run index with a gate from {spurious Pending, 1 ms, seconds, just after the next keep-alive tick, just after the next service completion}, the rest use multi-cut / one-byte-at-a-time plans and write-acceptance plans (1-byte and short prefixes, Pending for a duration, Pending until a service completes). Masked clientbound packets, service call log and result class must be identical; frames must arrive complete; bounded completion after the last event. Later rounds added: coalesced reads in the variant, richer bases (authentication latency and verdicts, valid cookies), a write fault aimed at one Keep Alive frame (short accept + held until the running service completes), silent clients as bases.",
         note="A variant is judged only if every keep-alive echo was still available in time (measured from the pipe, not assumed); masked: verify token, session/trace id, cookie second, keep-alives.",
         tech="deterministic simulation; differential trace equality under enumerated segmentation and write-acceptance faults"),
     "C10": dict(cat="exploration", ref="DESIGN.md 4 (C10)",
-        text="Two-connection histories (authenticate + route, then present what was stored after a wall-clock gap around the expiry boundary or a backwards step) with secrets of any length, expiry up to 2^64-1, IPv4/IPv6, port changes, session cookie presented or not; oracle: independent HMAC over the issued cookie, body completeness against connection facts and the simulated clock, acceptance and same identity on the second connection, session-cookie rules.",
+        text="Two-connection histories (authenticate + route, then present what was stored after a wall-clock gap around the expiry boundary or a backwards step) with secrets of any length, expiry up to 2^64-1, IPv4/IPv6, port changes, session cookie presented or not; oracle: independent HMAC over the issued cookie, body completeness against connection facts and the simulated clock, acceptance and same identity on the second connection, session-cookie rules. Later rounds added: secrets around one HMAC block (63/64/65/128 bytes), Forge-style hosts with NUL, a second connection handled under another configured expiry, zero-time transport faults, service calls must carry each connection's own address.",
         note="Trusts the oracle's HMAC/JSON check; gap beyond expiry is left to C02.",
         tech="deterministic simulation; two-connection history check with simulated wall clock"),
     "C04": dict(cat="fault_enumeration", ref="DESIGN.md 4 (C04)",
-        text="Four honest transcripts with exactly one mutation enumerated by run index over every frame and byte offset (outer length boundary values with the prefix delivered alone, truncation at every offset + EOF/reset, every offset replaced by hostile VarInts / bytes / invalid UTF-8 with the outer length repaired, junk appended, wire bit flips incl. ciphertext, 12 Encryption Response variants), several maximum frame sizes, a third under segmentation. Observed: panic hook, counting allocator (largest single request while the handler is polled), virtual time from EOF delivery to return, reads after EOF.",
+        text="Four honest transcripts with exactly one mutation enumerated by run index over every frame and byte offset (outer length boundary values with the prefix delivered alone, truncation at every offset + EOF/reset, every offset replaced by hostile VarInts / bytes / invalid UTF-8 with the outer length repaired, junk appended, wire bit flips incl. ciphertext, 12 Encryption Response variants), several maximum frame sizes, a third under segmentation. Observed: panic hook, counting allocator (largest single request while the handler is polled), virtual time from EOF delivery to return, reads after EOF. Later rounds added: frames really longer than the maximum delivered whole in one segment at every protocol step, bursts of 200-3000 valid ignorable frames in one segment (buffer growth), odd locales with the no-target Disconnect path, a watchdog that turns a non-yielding loop into a violation with replay.",
         note="Samples random bytes for junk/flip positions; allocation bound max(64 KiB, 8 x max frame) is the check's reading of 'out of proportion'.",
         tech="deterministic simulation; enumerated frame mutations with panic/allocation/termination monitors"),
     "C05": dict(cat="fault_enumeration", ref="DESIGN.md 4 (C05)",
@@ -41,31 +41,31 @@ CLAIMED = {
         note="Trusts the oracle's 25-line CFB8 and the aes crate's block function; transport is the scripted stub.",
         tech="deterministic simulation: scripted-transport fault injection, independent CFB8 oracle"),
     "C13": dict(cat="exploration", ref="DESIGN.md 4 (C13)",
-        text="Seeded arrival histories against the real RateLimiter under tokio virtual time; black-box oracle: per-window and sliding bounds, re-admission after 2d idle, metamorphic duplicate-rejected relation, per-key differential run (cleanup neutrality), tracked-keys bound through hook H3.",
+        text="Seeded arrival histories against the real RateLimiter under tokio virtual time; black-box oracle: per-window and sliding bounds, re-admission after 2d idle, metamorphic duplicate-rejected relation, per-key differential run (cleanup neutrality), tracked-keys bound through hook H3. Later rounds added: address scans (fresh keys only), 66-70 thousand fresh keys anywhere in the history, limiter uptimes around 2^31 / 2^32 ms and 400 days; the per-key differential prefers keys that come back.",
         note="Trusts tokio's paused clock and that tracked_keys() equals the published gauge value.",
         tech="deterministic simulation under virtual time; history oracles (bounds, metamorphic, differential)"),
 }
 
 CLAIMED.update({
     "C14": dict(cat="exploration", ref="DESIGN.md 4 (C14)",
-        text="Seeded configurations started through passage::start(config) with built-in adapters, or as a Listener with sim services whose discovery never answers, on the simulated network; clients probe the configured frame limit at max / max+1, cookies at expiry-1 / expiry / expiry+1 under the configured or another secret, and the deadline (silent, trickling one byte every k s, stopping after n frames, echoing keep-alives forever). Oracle: served / refused according to the configured values, server end closed no later than timeout after accept.",
-        note="PROXY off here; built-in Fixed adapters stand in for back-ends in start mode; ctrl-c never raised.",
+        text="Seeded configurations started through passage::start(config) with built-in adapters, or as a Listener with sim services whose discovery never answers, on the simulated network; clients probe the configured frame limit at max / max+1, cookies at expiry-1 / expiry / expiry+1 under the configured or another secret, and the deadline (silent, trickling one byte every k s, stopping after n frames, echoing keep-alives forever). Oracle: served / refused according to the configured values, server end closed no later than timeout after accept. Later rounds added: PROXY protocol on (admission = header complete, itself bounded by the timeout), trickling headers, a client that stops reading, secrets with surrounding whitespace, timeout 0.",
+        note="Built-in Fixed adapters stand in for back-ends in start mode; the interrupt signal is not raised here (C17 does).",
         tech="deterministic simulation on an in-memory network; config-conformance and deadline invariants"),
     "C15": dict(cat="exploration", ref="DESIGN.md 4 (C15)",
-        text="Seeded arrival histories of up to 40 connections through 1-3 load-balancer peers with PROXY v1/v2 headers from an independent writer (valid, LOCAL/UNKNOWN, bad signature, truncated+EOF, absent, disabled version), limiter off or small enough to refuse; oracle: a second real RateLimiter fed with the effective IPs of the valid connections at the same virtual instants decides who must be served; refused and invalid connections receive zero bytes; services and issued cookies see the announced source.",
-        note="Headers arrive with the first segment; the shadow limiter is the real one so limiter defects are not misattributed.",
+        text="Seeded arrival histories of up to 40 connections through 1-3 load-balancer peers with PROXY v1/v2 headers from an independent writer (valid, LOCAL/UNKNOWN, bad signature, truncated+EOF, absent, disabled version), limiter off or small enough to refuse; oracle: a second real RateLimiter fed with the effective IPs of the valid connections at the same virtual instants decides who must be served; refused and invalid connections receive zero bytes; services and issued cookies see the announced source. Later rounds added: headers that trickle in (admission and limiter feed at header completion, ties give no verdict), header and handshake in one read, datagram-transport v2 headers.",
+        note="The shadow limiter is the real one so limiter defects are not misattributed (C13 owns them).",
         tech="deterministic simulation on an in-memory network; shadow-limiter history oracle"),
     "C16": dict(cat="exploration", ref="DESIGN.md 4 (C16)",
-        text="1-20 hostile clients (silent before / stalled inside / trickling the PROXY header, stopping mid-protocol, stalled mid-frame, never echoing, never reading) plus one well-behaved victim; every scenario is run with everybody and with the victim alone and the victim's timestamped trace must be identical (compute is free in virtual time, so any difference is waiting caused by another connection).",
-        note="Victim has its own effective IP so the limiter cannot couple it to the others.",
+        text="1-20 hostile clients (silent before / stalled inside / trickling the PROXY header, stopping mid-protocol, stalled mid-frame, never echoing, never reading) plus one well-behaved victim; every scenario is run with everybody and with the victim alone and the victim's timestamped trace must be identical (compute is free in virtual time, so any difference is waiting caused by another connection). Later rounds added: up to 64 hostile clients, everybody behind one or two load-balancer peers, crowds that misbehave the same way, hostile clients sharing addresses (limiter refusals kept open), listener uptimes of 6 h / 1 d / 49.7 d with an ordinary login at the very start.",
+        note="Victim has its own effective IP so the limiter cannot couple it to the others. Needs-two-OS-threads effects (e.g. try_lock contention) are outside a single-threaded simulation.",
         tech="deterministic simulation; non-interference as timed-trace equality with the solo run"),
     "C17": dict(cat="exploration", ref="DESIGN.md 4 (C17)",
-        text="0-10 connections at various stages and a stop request at a random instant, deliberately also at the exact instant of a connect (issued before or after it); each scenario runs with and without the stop. Oracle: nothing served to connections that arrived after the stop, they see EOF by the time listen() returns; connections accepted strictly before the stop end exactly as in the stop-free run; listen() returns Ok, no earlier than the last served connection's end and within the timeout.",
+        text="0-10 connections at various stages and a stop request at a random instant, deliberately also at the exact instant of a connect (issued before or after it); each scenario runs with and without the stop. Oracle: nothing served to connections that arrived after the stop, they see EOF by the time listen() returns; connections accepted strictly before the stop end exactly as in the stop-free run; listen() returns Ok, no earlier than the last served connection's end and within the timeout. Later rounds added: PROXY protocol with headers completing seconds after the accept or just inside the deadline, a third of the histories through passage::start stopped by the simulated interrupt (hook H6), a sibling connection task that panics (injected back-end bug) while others drain.",
         note="Connects issued at the stop's own instant before it count as queued: fully served or nothing are both accepted. Keep Alive packets are excluded from the comparison (tick ties).",
         tech="deterministic simulation with a stop signal at arbitrary and tied instants; differential drain oracle"),
     "C20": dict(cat="exploration", ref="DESIGN.md 4 (C20)",
-        text="The real AgonesDiscoveryAdapter, kube client stack and kube-runtime watcher/backoff run against an in-process simulated Kubernetes API server under virtual time: seeded histories of create / replace (all Agones states, unconvertible shapes) / delete with BOOKMARKs, dropped watches (EOF, I/O error, mid-line), HTTP 500, compaction and in-stream 410 (re-list), expired continue tokens, pagination, latency, arbitrary chunk boundaries, duplicate delivery, watch timeouts. After every step the run settles (bounded liveness, 180 s virtual) and discover() must equal the set derived from the server's single-copy store.",
-        note="The simulated server is written to the list/watch contract kube-runtime expects; oracle compares only at settle points.",
+        text="The real AgonesDiscoveryAdapter, kube client stack and kube-runtime watcher/backoff run against an in-process simulated Kubernetes API server under virtual time: seeded histories of create / replace (all Agones states, unconvertible shapes) / delete with BOOKMARKs, dropped watches (EOF, I/O error, mid-line), HTTP 500, compaction and in-stream 410 (re-list), expired continue tokens, pagination, latency, arbitrary chunk boundaries, duplicate delivery, watch timeouts. After every step the run settles (bounded liveness, 180 s virtual) and discover() must equal the set derived from the server's single-copy store. Later rounds added: invariants sampled at every unsettled instant (a server offerable at the last settle point and untouched since stays offered with exactly that data; nothing is offered in a version that never existed), busy histories without settling between steps, aborted re-lists, store changes fused with a stream failure, the application's DynDiscoveryAdapter wrapper.",
+        note="The simulated server is written to the list/watch contract kube-runtime expects.",
         tech="deterministic simulation against a simulated API server; reference-model (single-copy store) comparison at settle points + bounded liveness"),
 })
 
